@@ -127,6 +127,7 @@ PROPS = {
         assumptions=["TypeId ordering plays no role (BTreeMap<TypeId,_> is only looked up, never iterated)"],
     ),
     'C08': dict(
+        translators=['extract_serde_attrs.py'],
         streams=[dict(name='json', quick=800, thorough=8000, filter=only('C08:'))],
         rule="generated registries (arbitrary and well-formed, every definition kind, optional parts present and absent, empty/long/multi-byte strings) through the real serde_json::to_value (ser cases: shape predicate, library round trip through Value and through text, independent reader) and 5 (thorough 10) structural mutations of each document (member removed/added/renamed incl. type_name, bitSequence, unknown keys; null; numbers at 255/256/2^32-1/2^32, negative, fractional; strings; arrays dropped/duplicated; object replaced by positional array) plus 18 hand-written documents (optional members omitted / explicitly empty / null) through the real from_value under catch_unwind, compared with the model reader. Inputs using serde's positional-array form of structs or the {\"bool\": null} form of unit variants are UNMODELLED (counted).",
         trusted_base=COMMON_TB + ["serde / serde_json 1.0 are modelled (SIM.Model.Json), tied by the differential runs only"],
@@ -158,7 +159,7 @@ PROPS = {
         assumptions=["values are generated, not enumerated: integer leaves hit 0, 1, 63/64, 2^14, 2^30 boundaries, extremes and random bits; collections have 0-3 elements; BinaryHeap values have at most one element (iteration order is internal)"],
     ),
     'C19': dict(
-        custom='c19',
+        custom='c19', translators=['extract_serde_attrs.py'], extra_targets=['SIM.Props.C08serde'],
         streams=[],
         n=dict(quick=400, thorough=6000),
         rule="generated registries (arbitrary and well-formed, every definition kind incl. variants with no variants and composites with no fields, optional parts present and absent) serialised by the real serde impl in a harness built with scale-info's schema feature; each document is validated against the REAL generated schema by python jsonschema (reference) and by the Lean validator on the translated schema; 3 structural mutations per document (member removed/added/renamed, null, wrong-typed, arrays edited) compare the two validators. Non-trivial: non-empty registry / a mutated document the schema rejects.",
